@@ -28,8 +28,8 @@ var anchored = []string{
 
 type goStmt struct {
 	file, encl, callee string
-	exit              string // "some true" | "some false" | "none"
-	line              int
+	exit               string // "some true" | "some false" | "none"
+	line               int
 }
 
 func hasReturn(n ast.Node) bool {
@@ -105,7 +105,7 @@ func extract(repo string) (string, error) {
 	fset := token.NewFileSet()
 	// parse whole package directories so that callee bodies are found (run() lives in engine.go)
 	decls := map[string]map[string][]*ast.FuncDecl{} // dir -> func name -> declarations
-	ifaceM := map[string]map[string]bool{}       // dir -> method names declared by interface types
+	ifaceM := map[string]map[string]bool{}           // dir -> method names declared by interface types
 	files := map[string]*ast.File{}
 	for _, a := range anchored {
 		dir := filepath.Dir(a)
@@ -243,4 +243,3 @@ func extract(repo string) (string, error) {
 	sb.WriteString("]\n\nend BMV.Gen.GoStmts\n")
 	return sb.String(), nil
 }
-
